@@ -120,7 +120,6 @@ Definition B24 : Z := 2 ^ 24.
 Definition B50 : Z := 2 ^ 50.
 Definition small (b : Z) (z : Z) : bool := Z.abs z <? b.
 Definition pos_finite (t : tok) : bool := match t with TNum m _ => 0 <? m | _ => false end.
-Definition is_pow2_or_0 (z : Z) : bool := (z =? 0) || ((0 <? z) && (2 ^ Z.log2 z =? z)).
 
 Definition amp_regime (ai : amp_in) : bool :=
   wf_amp ai &&
